@@ -155,6 +155,29 @@ def run(tier):
                     c["raised"], c["exc"] = True, type(e).__name__ + ":" + str(e)[:80]
                 cases.append(c)
                 ctx.case((writer, seq, oi, churn))
+        # (a2) the text writer under a template that names fields only SOME of the record types have (round g): every line is
+        #      the template over THAT record's fields, a field the record lacks stays the literal `{name}` -- whatever
+        #      record types came before it in the run (A and B have the same number of fields)
+        if seq and not churn:
+            p = os.path.join(tmp, "o.tpl")
+            tpl = "{n}|{s}|{other}|{x}|{_source}"
+            c = {"writer": "text", "hist": hist, "opts": OPTS[0], "raised": False, "exc": "none", "items": [], "values_ok": True, "readback_checked": False, "readback_ok": True}
+            try:
+                with RecordWriter("text://" + p + "?format_spec=" + tpl) as w:
+                    for h in hist:
+                        w.write(recs[h["id"]])
+                lines = read_text(p).split("\n")[:-1]
+                exp = []
+                for h in hist:
+                    have = {n for _, n in D[h["d"]].get_field_tuples()}
+                    r = recs[h["id"]]
+                    exp.append("|".join(str(getattr(r, k)) if k in have or k == "_source" else "{%s}" % k for k in ("n", "s", "other", "x", "_source")))
+                c["items"] = [{"k": "TEXT", "id": h["id"]} for h in hist] if len(lines) == len(hist) else [{"k": "?"}]
+                c["values_ok"] = lines == exp
+            except Exception as e:
+                c["raised"], c["exc"] = True, type(e).__name__ + ":" + str(e)[:80]
+            cases.append(c)
+            ctx.case(("text-template", seq, 0, churn))
     nstruct = len(cases)
     # (b) cell contents: every field type x value class through each writer (one record, all fields selected)
     vc = gen.value_classes()
@@ -253,7 +276,7 @@ def run(tier):
 
     safe = ["abc", "x y", "1", "café", "a-b_c", "", "Z9"]
     padded = ["  lead", " x", "trail  ", "\tq"]          # blanks at the edge of a cell are part of the cell
-    for delim in (",", ";", "\t", "|"):
+    for delim in (",", ";", "\t", "|", ":", "~", "^", "#"):      # the reader sniffs the dialect: not only the four usual delimiters (round g)
         for trial in range(3 if not thorough else 12):
             rows = [[ctx.rnd.choice(safe[:5]) for _ in range(3)] for _ in range(ctx.rnd.randint(1, 5))]
             if trial % 2:
@@ -367,6 +390,6 @@ def run(tier):
             key = {"check": "value", "writer": c["writer_kind"], "type": c["T"], "class": c["label"], "extra": c["extra"], "raised": c["raised"], "exc": c["exc"].split(":")[0]}
         ctx.violation(key, {"case": {k: x for k, x in c.items() if k != "hist"}})
     ctx.count(len(cases), len(cases))
-    ctx.extra["rule"] = "(a) all descriptor sequences <= 4 over {A, A2, B} x option sets x {csv, line, text}; (b) every field type x value class + 19 text cell classes x writer x option; (c) CSV read-back x 4 delimiters"
+    ctx.extra["rule"] = "(a) all descriptor sequences <= 4 over {A, A2, B} x option sets x {csv, line, text}; (b) every field type x value class + 19 text cell classes x writer x option; (c) CSV read-back x 8 delimiters; (a2) text templates naming fields of other record types over every sequence"
     ctx.assumptions += ["the line writer is held to what the statement says (every selected field once, in order, as name = <text form> in its block), not to re-parseability of values that contain line breaks"]
     return ctx.finish()
